@@ -86,14 +86,41 @@ def act(case: dict[str, Any], point: str) -> None:
         raise KeyboardInterrupt()
 
 
+_RICH: dict[Any, Any] = {}
+
+
+def rich_config(base: Any) -> Any:
+    """The base config extended by options of gallia's special field types, as real commands declare them
+    (hex bytes, enum by name or value, ranges, hex int)."""
+    if base not in _RICH:
+        from gallia.command.config import AutoInt, EnumArg, Field, HexBytes, HexInt, Ranges
+        from gallia.services.uds.core.constants import UDSIsoServices
+
+        class Rich(base):  # type: ignore[misc,valid-type]
+            pdu: HexBytes = Field(bytes([0x3E, 0x00]), description="pdu")
+            service: EnumArg[UDSIsoServices] = Field(UDSIsoServices.ReadDataByIdentifier, description="service")
+            ids: Ranges = Field([1, 2, 3], description="ids")
+            mask: HexInt = Field(0xFF, description="mask")
+            count: AutoInt = Field(7, description="count")
+
+        _RICH[base] = Rich
+    return _RICH[base]
+
+
 def make_command(case: dict[str, Any], d: Path) -> Any:
     from gallia.command import AsyncScript, Scanner, UDSScanner
     from gallia.command.base import AsyncScriptConfig, ScannerConfig
     from gallia.command.uds import UDSScannerConfig
     from gallia.log import get_logger
 
+    rich = case.get("rich")
+    if rich:
+        AsyncScriptConfig, ScannerConfig, UDSScannerConfig = rich_config(AsyncScriptConfig), rich_config(ScannerConfig), rich_config(UDSScannerConfig)
+
     lg = get_logger("gallia.vfc15")
     common: dict[str, Any] = {"hooks": case["hooks_enabled"]}
+    if rich:
+        common.update(pdu=bytes.fromhex(rich["pdu"]), service=rich["service"], ids=rich["ids"], mask=rich["mask"], count=rich["count"])
     if case["artifacts"]:
         common["artifacts_base"] = d / "artifacts"
     if case["db"] == "on":
@@ -353,6 +380,13 @@ def check(case: dict[str, Any]) -> list[tuple[str, str]]:
                     out.append(("C15/meta-config-not-reproducible", f"{ctx}: {meta['config']} -> {again.model_dump_json()}"))
             except Exception as e:  # noqa: BLE001
                 out.append(("C15/meta-config-not-reproducible", f"{ctx}: CONFIG_TYPE(**config) raised {e!r}"))
+            rm_ = obs.get("run_meta")
+            if case["db"] == "on" and rm_ and len(rm_) == 1 and rm_[0][2] is not None:
+                try:
+                    if json.loads(rm_[0][2]) != meta["config"]:
+                        out.append(("C15/meta-config-differs-from-database", f"{ctx}: META.json {meta['config']} vs run_meta.config {rm_[0][2]}"))
+                except Exception as e:  # noqa: BLE001
+                    out.append(("C15/meta-config-differs-from-database", f"{ctx}: run_meta.config unreadable: {e!r}"))
         if obs.get("log_error") or obs.get("log_missing"):
             out.append((f"C15/log-unreadable/{where}", f"{ctx}: {obs.get('log_error', 'log.json.zst missing')}"))
         elif obs.get("markers") != expected_markers(case):
@@ -400,7 +434,10 @@ def case_s(draw) -> dict[str, Any]:
     kind = draw(st.sampled_from(KINDS))
     return {"cmd": draw(st.sampled_from(CMDS)), "kind": kind, "point": draw(st.sampled_from(POINTS)) if kind != "return" else "main",
             "artifacts": draw(st.booleans()), "db": draw(st.sampled_from(["off", "on", "on", "dir"])), "lock": draw(st.booleans()),
-            "hooks_enabled": draw(st.sampled_from([True, True, True, False])), "pre_hook": draw(st.sampled_from(HOOKS)), "post_hook": draw(st.sampled_from(HOOKS))}
+            "hooks_enabled": draw(st.sampled_from([True, True, True, False])), "pre_hook": draw(st.sampled_from(HOOKS)), "post_hook": draw(st.sampled_from(HOOKS)),
+            "rich": draw(st.one_of(st.none(), st.fixed_dictionaries({
+                "pdu": st.binary(min_size=0, max_size=6).map(bytes.hex), "service": st.sampled_from([0x10, 0x22, 0x27, 0x3E]),
+                "ids": st.lists(st.integers(0, 0xFFFF), max_size=4, unique=True).map(sorted), "mask": st.integers(0, 0xFFFF), "count": st.integers(0, 2**31)})))}
 
 
 def grid() -> list[dict[str, Any]]:
@@ -408,7 +445,8 @@ def grid() -> list[dict[str, Any]]:
     for cmd, kind, art, db, lock in itertools.product(CMDS, KINDS, [False, True], ["off", "on", "dir"], [False, True]):
         for point in (POINTS if kind != "return" else ["main"]):
             for he, pre, post in [(True, "none", "none"), (True, "ok", "ok"), (True, "fail", "ok"), (True, "ok", "fail"), (True, "missing", "missing"), (False, "ok", "fail")]:
-                out.append({"cmd": cmd, "kind": kind, "point": point, "artifacts": art, "db": db, "lock": lock, "hooks_enabled": he, "pre_hook": pre, "post_hook": post})
+                out.append({"cmd": cmd, "kind": kind, "point": point, "artifacts": art, "db": db, "lock": lock, "hooks_enabled": he, "pre_hook": pre, "post_hook": post,
+                            "rich": {"pdu": "22f190", "service": 0x27, "ids": [1, 16, 255], "mask": 0x7F, "count": 300} if (len(out) % 3 == 0) else None})
     return out
 
 
